@@ -215,7 +215,7 @@ META = dict(
 )
 
 MANIFEST = dict(
-    text="For C10: the real cif.atom_site (both branches) and count_models on a stub container whose values are layout strings (symbolic serials, residue numbers, coordinates, names) followed by the real ATOM/HETATM/MODEL parsers, against the fields a PDB file would carry for the same atom; covers both missing-value conventions of the mmCIF dependency, alternate locations, insertion codes, 4-character names, 2-character asym ids, label/auth chain and residue-number differences, coordinates written with three decimals, one decimal or as bare integers, and multi-model files. The pinned reader fails for most of these (known findings, one region per cause); the check proves the remaining region correct and reports anything new.",
+    text="For C10: the real cif.atom_site (both branches) and count_models on a stub container whose values are layout strings (symbolic serials, residue numbers, coordinates, names) followed by the real ATOM/HETATM/MODEL parsers, against the fields a PDB file would carry for the same atom; covers both missing-value conventions of the mmCIF dependency, alternate locations, insertion codes, 4-character names, 2-character asym ids, label/auth chain and residue-number differences, coordinates written with three decimals, one decimal or as bare integers, and multi-model files. The pinned reader fails for most of these (known findings, one region per cause); the check proves the remaining region correct and reports anything new. Round 4: HETATM rows between ATOM rows (record order is row order).",
     note="Trusted: z3, symx layout strings, the stub container's contract. Only the record-assembly kernel is decided; the equality of the downstream pipeline for equal record lists is argued, not checked. With the installed mmcif-pdbx (missing values come back as '' / None) every record falls in known-finding region C10-F1.",
     technique="symbolic execution of real code on layout strings (symx) + SMT verdict per path",
     design="DESIGN.md section 3 C10",
